@@ -468,14 +468,20 @@ def inert_arguments(ctx, rng, ntrees=3):
                     variants = [('exclude= that matches nothing', dict(flags=fv, root_dir=T.root, exclude='zz-no-such-name*')),
                                 ('exclude= list that matches nothing', dict(flags=fv, root_dir=T.root, exclude=['zz-none', '*/zz-none/**'])),
                                 ('root_dir with a trailing separator', dict(flags=fv, root_dir=T.root + '/')),
-                                ('NOUNIQUE on a single pattern', dict(flags=fv | Gm.NOUNIQUE, root_dir=T.root))]
+                                ('NOUNIQUE on a single pattern', dict(flags=fv | Gm.NOUNIQUE, root_dir=T.root)),
+                                ('an empty pattern before it in the list', dict(flags=fv, root_dir=T.root, _pats=['', p])),
+                                ('an empty pattern after it in a tuple', dict(flags=fv, root_dir=T.root, _pats=(p, '')))]
                     for how, kw in variants:
                         n += 1
+                        kw = dict(kw)
+                        p_arg = kw.pop('_pats', p)
+                        if p_arg is not p and (fv & (Gm.MATCHBASE | Gm.NEGATE)):
+                            continue
                         try:
-                            got = Gm.glob(p, **kw)
+                            got = Gm.glob(p_arg, **kw)
                             kwm = dict(kw, flags=kw['flags'] | Gm.REALPATH)
-                            gotm = [c for c in cands if Gm.globmatch(c, p, **kwm)]
-                            gotc = [c for c in cands if Gm.compile(p, flags=kwm['flags'], **({'exclude': kw['exclude']} if 'exclude' in kw else {})).match(c, root_dir=kw['root_dir'])]
+                            gotm = [c for c in cands if Gm.globmatch(c, p_arg, **kwm)]
+                            gotc = [c for c in cands if Gm.compile(p_arg, flags=kwm['flags'], **({'exclude': kw['exclude']} if 'exclude' in kw else {})).match(c, root_dir=kw['root_dir'])]
                         except Exception as e:
                             got, gotm, gotc = 'EXC %s' % type(e).__name__, None, None
                         if (got != want or gotm != wantm or gotc != wantm) and found < 4:
@@ -527,3 +533,62 @@ def trailing_newline_names(ctx):
             os.close(saved0)
             os.close(fd)
     return n
+
+
+FRINGE_TREE = [('\u0130stanbul.txt', 'f', None), ('stra\u00dfe', 'f', None), ('\ufb01le.txt', 'f', None), ('Ma\u00dfe', 'd', None), ('Ma\u00dfe/a', 'f', None),
+               ('caf\u00e9', 'd', None), ('caf\u00e9/\u00c9t\u00e9.TXT', 'f', None), ('\u212a', 'f', None), ('\u01c5', 'f', None), ('\U0001F600.txt', 'f', None), ('sub', 'd', None),
+               ('sub/\u0130', 'f', None), ('\u03a3\u03c3\u03c2', 'f', None), ('plain.txt', 'f', None), ('e\u0301', 'f', None), ('\u00e9', 'f', None)]
+
+
+def fringe_names(ctx):
+    """Entries with non-ASCII names (letters whose case mapping changes length or is not one-to-one, ligatures, combining
+    marks, an astral character): (1) every entry, written exactly (escaped), is found - with and without IGNORECASE, str and
+    bytes; (2) whatever the walk returns for a literal or wildcard pattern is accepted by the REALPATH matcher with the same
+    flags; (3) case-sensitive walks and matcher agree exactly.  Returns the number of evaluations."""
+    import trees
+    from wcmatch import glob as Gm, pathlib as PLm
+    n = 0
+    with trees.Tree(FRINGE_TREE) as T:
+        cands = sorted(T.entries())
+        for e in cands:
+            for fv in (0, Gm.IGNORECASE, Gm.IGNORECASE | Gm.GLOBSTAR | Gm.MARK, Gm.CASE):
+                n += 1
+                pat = Gm.escape(e)
+                try:
+                    got = [x.rstrip('/') for x in Gm.glob(pat, flags=fv, root_dir=T.root)]
+                    gotb = [os.fsdecode(x).rstrip('/') for x in Gm.glob(os.fsencode(pat), flags=fv, root_dir=os.fsencode(T.root))]
+                    gotp = [os.path.relpath(str(x), T.root) for x in PLm.Path(T.root).glob(pat, flags=fv & PLm.FLAG_MASK)]
+                    mt = Gm.globmatch(e, pat, flags=fv | Gm.REALPATH, root_dir=T.root)
+                except Exception as ex:
+                    ctx.counterexample('glob(escape(%r), %s) raised %s: %s' % (e, corr.flag_names(fv), type(ex).__name__, ex), {'entry': e, 'flags': corr.flag_names(fv)})
+                    continue
+                if e not in got or e not in gotb or e not in gotp or not mt:
+                    ctx.counterexample('the existing entry %r, written exactly as glob.escape gives it, under %s: glob finds %r, bytes glob %r, Path.glob %r, globmatch(REALPATH) %r' % (
+                        e, corr.flag_names(fv), got, gotb, gotp, mt), {'entry': e, 'pattern': pat, 'flags': corr.flag_names(fv), 'tree': [x[0] for x in FRINGE_TREE]})
+                    break
+        pats = ['strasse', 'STRASSE', 'stra\u00dfe', 'STRA\u1e9eE', 'file.txt', '\ufb01le.TXT', 'masse/*', 'Ma\u00dfe/*', 'caf\u00c9/*', 'CAF\u00c9/\u00e9T\u00c9.txt', '*', '*.txt', '?', 'k', 'K', '\u212a',
+                '\u01c6', 'ISTANBUL.TXT', '\u0130STANBUL.TXT', 'sub/i', 'sub/\u0130', '\u03c3\u03c3\u03c3', '\u03a3\u03a3\u03a3', '\u00c9', 'E\u0301', '[\u00e9]', '*\u00e9*']
+        for p in pats:
+            for fv in (Gm.IGNORECASE, 0, Gm.IGNORECASE | Gm.GLOBSTAR):
+                n += 1
+                try:
+                    got = sorted(x.rstrip('/') for x in Gm.glob(p, flags=fv, root_dir=T.root))
+                    acc = set(c for c in cands if Gm.globmatch(c, p, flags=fv | Gm.REALPATH, root_dir=T.root))
+                except Exception as ex:
+                    ctx.counterexample('glob / globmatch(%r, %s) raised %s' % (p, corr.flag_names(fv), type(ex).__name__), {'pattern': p, 'flags': corr.flag_names(fv)})
+                    continue
+                extra = [x for x in got if x not in acc]
+                if extra or (not (fv & Gm.IGNORECASE) and sorted(acc) != got):
+                    ctx.counterexample('glob(%r, %s) returns %r; the REALPATH matcher accepts %r (non-ASCII names)' % (p, corr.flag_names(fv), got, sorted(acc)),
+                                       {'pattern': p, 'flags': corr.flag_names(fv), 'tree': [x[0] for x in FRINGE_TREE]})
+    return n
+
+
+def icase_lower_vs_regex_witness():
+    """Witness of finding C04-icase-lower-vs-regex: True while it still fails."""
+    import trees
+    from wcmatch import glob as Gm
+    with trees.Tree([('\u0130x', 'f', None), ('\u017f', 'f', None)]) as T:
+        a = Gm.glob('i\u0307x', flags=Gm.IGNORECASE, root_dir=T.root) == ['\u0130x'] and not Gm.globmatch('\u0130x', 'i\u0307x', flags=Gm.IGNORECASE | Gm.REALPATH, root_dir=T.root)
+        b = Gm.glob('s', flags=Gm.IGNORECASE, root_dir=T.root) == [] and Gm.globmatch('\u017f', 's', flags=Gm.IGNORECASE | Gm.REALPATH, root_dir=T.root)
+        return a and b
